@@ -101,17 +101,28 @@ Definition one_error (cut : nat) (P : program) : bool :=
                         end) rs
   end.
 
+(* ---------- the order of the walk after the repair of F-C19-1/2 ------------ *)
+
+(* toposort.go and resolve.go now collect the keys of each map into a slice and
+   sort.Strings it before iterating.  Whatever order the map delivers them in
+   ([pi]), what the algorithm sees is the sorted list: the implementation is the
+   generic resolver of C16 run with the oracle [sorting pi]. *)
+Definition sorting (pi : oracle) : oracle := fun k l => sort_names (pi k l).
+Definition sort_oracle : oracle := fun _ l => sort_names l.
+Definition resolve_impl (pi : oracle) (P : program) : rres final := resolve (sorting pi) P.
+
 (* ---------- the names kept for the disassembler ---------------------------- *)
 
 (* compiler.go Compile:
      resolved.IterFuncs(func(name string, info resolver.FuncInfo) {
          for len(p.nativeFuncNames) <= info.Index { append "" }
          p.nativeFuncNames[info.Index] = name })
-   IterFuncs ranges over the funcInfo map: EVERY function, the AWK-defined ones
-   included, in map order.  [name_shown P order i] is nativeFuncNames[i] when the
-   map delivered the names in [order] (None: never written, ""). *)
+   IterFuncs ranges over the funcInfo map (every function, in map order); since the
+   repair of F-C19-3 the callback starts with `if !info.Native { return }`.
+   [name_shown P order i] is nativeFuncNames[i] when the map delivered the names in
+   [order] (None: never written, ""). *)
 Definition shown_hit (P : program) (i : Z) (n : name) : bool :=
-  match func_info P n with Some fi => fi_index fi =? i | None => false end.
+  match func_info P n with Some fi => fi_native fi && (fi_index fi =? i) | None => false end.
 Definition name_shown (P : program) (order : list name) (i : Z) : option name :=
   fold_left (fun acc n => if shown_hit P i n then Some n else acc) order None.
 
